@@ -164,10 +164,19 @@ type X struct {
 	fp    uint64
 	opIdx int
 	stop  bool // a violation that makes continuing meaningless was recorded
+	suppress bool // only the oracles that hold for every response apply
 	extra map[string]any
 }
 
 func (x *X) viol(props []string, oracle, sig, detail string) {
+	if x.suppress && !(strings.HasPrefix(oracle, "req.") || strings.HasPrefix(oracle, "get.digest") || strings.HasPrefix(oracle, "blobfile.") || strings.HasPrefix(oracle, "ro.") || strings.HasPrefix(oracle, "iso.path") || strings.HasPrefix(oracle, "hang.")) {
+		return // model-based oracles are off (storage of the addressed repository is unhealthy, or state was changed behind the model)
+	}
+	if x.p.Prop == "C14" && (strings.HasPrefix(oracle, "readback.") || strings.HasPrefix(oracle, "referrers.") || strings.HasPrefix(oracle, "taglist.") || oracle == "tag.resolve") {
+		// "while still serving its content"
+		props = append(append([]string{}, props...), "C14")
+		oracle = "ro.served-wrong/" + oracle
+	}
 	if len(detail) > 1500 {
 		detail = detail[:1500] + "…"
 	}
